@@ -2,6 +2,7 @@
   Hg.Proofs.CodecMain — decode ∘ encode, assembled kind by kind.
 -/
 import Hg.Proofs.CodecDecT
+import Hg.Proofs.BagLemmas
 
 namespace Hg.CodecAux
 open Hg Json
@@ -195,5 +196,7 @@ theorem step_bag (fuel : Nat) (q : Qty) (r : BagRange) (e : Val) (st : St) (tmpl
   · getq
   · getq
   · rw [parseRange_toString]; exact bag_round r m hkeys
+  · simp only [leafGood, Bool.and_eq_true] at hl
+    exact bagSorted_nodup_keys (bagSorted_of_leafGoodCore hl.1)
 
 end Hg.CodecAux
